@@ -254,7 +254,8 @@ UNITS["U7"] = {
 
 # U8 = U7 (readers, compressor) + the renamer
 _u7 = UNITS["U7"]
-_p8 = list(_u7["parts"]) + [("file", "spec/racc.rs"), ("struct", "renamer.rs", "Renamer"), ("impl", "renamer.rs", "Renamer", ["replace_raw", "copy_with_replaced_name", "rename_question_section", "rename_response_section", "rename_answer_section", "rename_nameservers_section", "rename_additional_section", "rename_with_raw_names"])]
+_p8 = list(_u7["parts"]) + [("file", "spec/racc.rs"), ("struct", "renamer.rs", "Renamer"), ("impl", "renamer.rs", "Renamer", ["replace_raw", "copy_with_replaced_name", "rename_question_section", "rename_response_section", "rename_answer_section", "rename_nameservers_section", "rename_additional_section", "rename_with_raw_names"]),
+                             ("impl", "parsed_packet.rs", "ParsedPacket", ["into_packet", "rename_with_raw_names"])]
 UNITS["U8"] = {
     "title": "renaming (C07)",
     "flags": ["--no-lifetime"], "rlimit": 100,
